@@ -71,7 +71,17 @@ fn reference(stream: &[u8], cuts: &[usize], bufsize: usize) -> Vec<Step> {
 fn subject(stream: &[u8], cuts: &[usize], bufsize: usize) -> Result<Vec<Step>, String> {
     guard(|| {
         let mut out = vec![];
-        let mut dec = match StunPacketDecoder::new(vec![0xCD; bufsize]) {
+        // half of the (stream, cuts, buffer) combinations hand over a buffer cut out of a bigger allocation
+        // (capacity > len): the limit is what the caller offered, `len()`
+        let roomy = (stream.len() + cuts.iter().sum::<usize>() + bufsize) % 2 == 1;
+        let buffer = if roomy {
+            let mut v = Vec::with_capacity(bufsize + 4096);
+            v.resize(bufsize, 0xCDu8);
+            v
+        } else {
+            vec![0xCD; bufsize]
+        };
+        let mut dec = match StunPacketDecoder::new(buffer) {
             Ok(d) => d,
             Err(e) => {
                 out.push(Step::Err { small: matches!(e.error_type, StunPacketErrorType::SmallBuffer), consumed: e.consumed, size: e.size, buf_len: e.buffer.len(), head: vec![] });
@@ -342,7 +352,7 @@ pub fn run(ctx: &RunCtx) -> i32 {
         rep,
         Finish {
             level: "exploration",
-            rule: format!("{} valid streams of 1-3 reference-encoded packets (0/4/8/24/100/1000 attribute bytes): every chunking with <=3 cuts (streams <=160 bytes; cuts may coincide or touch the ends, giving empty and one-byte chunks) or <=2 cuts (longer), plus equal pieces of 1..=64 bytes, x buffer sizes {{20, max-1, max, max+1, 2*max}}; every one of the 16,384 message types as a 20-byte packet under every 1-cut chunking and 26 types spread over the method bits (8 attribute bytes, alone and followed by a Binding packet) under every <=2-cut chunking x 3 buffers; 30 header corruptions x every <=2-cut chunking x 3 buffers; packets exceeding the buffer; every call's result compared with a reference splitter that only reads header length fields (error steps by kind, call index and the length of the buffer handed back; the `consumed` / `size` fields of an error are not specified by the statement). Non-trivial = chunking whose whole per-call result sequence matched; outcomes = distinct result-kind sequences", n_streams),
+            rule: format!("{} valid streams of 1-3 reference-encoded packets (0/4/8/24/100/1000 attribute bytes): every chunking with <=3 cuts (streams <=160 bytes; cuts may coincide or touch the ends, giving empty and one-byte chunks) or <=2 cuts (longer), plus equal pieces of 1..=64 bytes, x buffer sizes {{20, max-1, max, max+1, 2*max}} (half of the combinations with a buffer whose capacity exceeds its length by 4096); every one of the 16,384 message types as a 20-byte packet under every 1-cut chunking and 26 types spread over the method bits (8 attribute bytes, alone and followed by a Binding packet) under every <=2-cut chunking x 3 buffers; 30 header corruptions x every <=2-cut chunking x 3 buffers; packets exceeding the buffer; every call's result compared with a reference splitter that only reads header length fields (error steps by kind, call index and the length of the buffer handed back; the `consumed` / `size` fields of an error are not specified by the statement). Non-trivial = chunking whose whole per-call result sequence matched; outcomes = distinct result-kind sequences", n_streams),
             assumptions: vec!["the caller protocol modelled is: new decoder per packet, leftover bytes of the chunk go to the fresh decoder".into()],
             required_symbols: vec!["every-message-type", "message-type-menu", "valid-streams", "invalid-header-streams", "small-buffer-streams"],
             min_outcomes: 8,
